@@ -170,6 +170,30 @@ def _explained_by_redelivery(got, data):
     return pos == len(data)
 
 
+def complete_args_oracle(obs, x):
+    """Whatever the outcome: every CompleteMultipartUpload the library issues must list parts 1..n in
+    ascending order, each with the ETag (and part checksum) the service returned for that part."""
+    out = []
+    s3 = obs.world.s3
+    mech = base_mech(obs, x)
+    for c in s3.calls.values():
+        if c['label'] != x.label or c['op'] != 'CompleteMultipartUpload' or c.get('parts_arg') is None:
+            continue
+        nums = [p.get('PartNumber') for p in c['parts_arg']]
+        if nums != list(range(1, len(nums) + 1)):
+            out.append(V(f'{x.label}: CompleteMultipartUpload issued with part numbers {nums}, not 1..n ascending', **mech, sym='complete-order'))
+        up = s3.uploads.get(c['params'].get('UploadId'))
+        if up is None:
+            continue
+        for pa in c['parts_arg']:
+            part = up['parts'].get(pa.get('PartNumber'))
+            if part is not None and pa.get('ETag') != part['etag']:
+                out.append(V(f'{x.label}: CompleteMultipartUpload lists part {pa.get("PartNumber")} with ETag {pa.get("ETag")}, '
+                             f'S3 returned {part["etag"]}', **mech, sym='complete-etag'))
+                break
+    return out
+
+
 # ------------------------------------------------------------------------ C03
 def counted_faults(obs, x):
     """Faults actually raised into library code on behalf of transfer x, after
@@ -255,7 +279,7 @@ def outcome_oracle(obs, x):
             out.append(V(f'{x.label}: {len(evs)} GetObject requests for range {disc}, more than num_download_attempts='
                          f'{obs.config.num_download_attempts}', **mech, sym='too-many-attempts'))
     for r in mine:
-        if r['kind'] in ('exc', 'client4xx', 'oserror') and '/s3:' in r['key'] and 'Abort' not in r['key']:
+        if r['kind'] in ('exc', 'client4xx', 'oserror') and '/s3:' in r['key'] and 'Abort' not in r['key'] and r['phase'] != 'mid':
             opdisc = r['key'].split('/s3:')[1].split('#')[0]
             op, _, disc = opdisc.partition(':')
             later = [e for e in begins.get((op, disc), []) if e['n'] > r['n']]
